@@ -367,6 +367,18 @@ fn handle_established(
             }
         }
 
+        // A segment that occupies sequence space (data, FIN, or a
+        // retransmitted SYN-ACK) but was not accepted above — a
+        // duplicate whose ACK was lost, an out-of-order segment, or
+        // data hitting a full receive buffer — still gets an ACK
+        // carrying `rcv_nxt` and the current window (RFC 793 §3.9).
+        // Without it a single lost ACK leaves the peer retransmitting
+        // into silence until it times out. The reply is a bare ACK,
+        // which never triggers another one, so this cannot ping-pong.
+        if !send_ack && (!s.payload.is_empty() || s.flags.fin || s.flags.syn) {
+            send_ack = true;
+        }
+
         if wake_write {
             st.wake_write();
         }
